@@ -233,7 +233,7 @@ class C14(Property):
     rule = ""
     exhaustive_note = ""
     quick_n = 70000
-    thorough_n = 600000
+    thorough_n = 900000
 
     # -------------------------------------------------------------- cases
     def _case(self, tree, start, path, strict, single, ast=None):
